@@ -17,10 +17,11 @@
  * swp/swq: if not empty, two nodes of the tree that are exchanged (renameat2 RENAME_EXCHANGE) before the
  *   case and exchanged back after it: the tree is different while this call is made (both modes alike)
  * p1fd/p2fd: if not empty, a directory to open; the name becomes /proc/self/fd/<N>/<p>
- * m1/m2: <where>:<gap> placement of the string relative to a page boundary B of an mmap'ed region:
+ * m1/m2: <where>:<gap>:<prot> placement of the string relative to a page boundary B of an mmap'ed region:
  *   static (the ordinary buffer), in (ends 100 bytes before B), end (NUL is the last byte before B),
  *   one / mid / last (B after the first byte / in the middle / before the last byte), nul (only the NUL
- *   behind B); gap=1: the page after the one holding the NUL is PROT_NONE.  Both modes place alike.
+ *   behind B); gap=1: the page after the one holding the NUL is PROT_NONE; prot: protection given to the
+ *   page holding the NUL after the string was written (rw, w = PROT_WRITE only, none).  Both modes alike.
  */
 #define _GNU_SOURCE
 #include <errno.h>
@@ -86,6 +87,7 @@ static const char *ename(int e)
 	case EEXIST: return "EEXIST";
 	case EISDIR: return "EISDIR";
 	case ENAMETOOLONG: return "ENAMETOOLONG";
+	case EFAULT: return "EFAULT";
 	}
 	snprintf(b, sizeof b, "E%d", e);
 	return b;
@@ -212,6 +214,7 @@ static char *place(char *region, char *s, const char *tok)
 	memcpy(b, tok, (size_t)(c - tok));
 	b[c - tok] = 0;
 	gap = c[1] == '1';
+	const char *prot = strlen(c) >= 4 ? c + 3 : "rw";
 	if (!strcmp(b, "static")) return s;
 	if (mprotect(region, NPG * PG, PROT_READ | PROT_WRITE)) die("mprotect rw", "");
 	memset(region, 0, NPG * PG);
@@ -226,10 +229,13 @@ static char *place(char *region, char *s, const char *tok)
 	if (tot > PG) die("string too long to place", "");
 	char *start = B - bpos;
 	memcpy(start, s, tot);
-	if (gap) {
-		char *nulpage = region + ((size_t)(start + len - region) / PG) * PG;
-		if (mprotect(nulpage + PG, PG, PROT_NONE)) die("mprotect none", "");
-	}
+	char *nulpage = region + ((size_t)(start + len - region) / PG) * PG;
+	if (gap && mprotect(nulpage + PG, PG, PROT_NONE)) die("mprotect none", "");
+	if (!strcmp(prot, "w")) {
+		if (mprotect(nulpage, PG, PROT_WRITE)) die("mprotect w", "");
+	} else if (!strcmp(prot, "none")) {
+		if (mprotect(nulpage, PG, PROT_NONE)) die("mprotect none", "");
+	} else if (strcmp(prot, "rw")) die("unknown protection", tok);
 	return start;
 }
 
